@@ -4,6 +4,7 @@ use crate::refm::eval::RefOutcome;
 use crate::subject::{MachineryError, Outcome};
 
 pub mod c06;
+pub mod c07;
 pub mod c11;
 pub mod c16;
 
@@ -17,6 +18,7 @@ pub trait Check: Sync {
 pub fn get(id: &str) -> Option<Box<dyn Check>> {
     match id {
         "C06" => Some(Box::new(c06::C06)),
+        "C07" => Some(Box::new(c07::C07)),
         "C11" => Some(Box::new(c11::C11)),
         "C16" => Some(Box::new(c16::C16)),
         _ => None,
@@ -24,7 +26,7 @@ pub fn get(id: &str) -> Option<Box<dyn Check>> {
 }
 
 pub fn all_ids() -> Vec<&'static str> {
-    vec!["C06", "C11", "C16"]
+    vec!["C06", "C07", "C11", "C16"]
 }
 
 /// does `msg` mention `parts` in this order (each after the previous one)?
